@@ -44,12 +44,12 @@ var routes = map[string]routeInfo{
 }
 const caseHeader = "X-Case" // push only: the one carrier a push target has for telling deliveries apart
 
-func dsl(slot int, backend string, extra string) string {
+func dsl(slot int, backend string, extra string, ingressExtra string) string {
 	base := 20000 + slot*10
 	q := "queue { backend " + backend + " }"
 	fwd := `auth forward "http://192.0.2.1/check" { copy_headers "` + fwdCopy[0] + `" copy_headers "` + fwdCopy[1] + `" }`
 	return fmt.Sprintf(`
-ingress   { listen "127.0.0.1:%d" }
+ingress   { listen "127.0.0.1:%d" %[10]s }
 pull_api  { listen "127.0.0.1:%d" grpc_listen "127.0.0.1:%d" auth token "raw:g1" default_lease_ttl 30m }
 admin_api { listen "127.0.0.1:%d" }
 defaults {
@@ -62,7 +62,7 @@ defaults {
 /d  { %[5]s deliver "%[7]s" { } }
 /d8 { %[5]s max_body 8 deliver "%[8]s" { } }
 /df { %[5]s %[6]s deliver "%[9]s" { } }
-`+extra, base, base+1, base+2, base+3, q, fwd, routes["std"].url, routes["small"].url, routes["fwd"].url)
+`+extra, base, base+1, base+2, base+3, q, fwd, routes["std"].url, routes["small"].url, routes["fwd"].url, ingressExtra)
 }
 
 func grpcAddr(slot int) string { return fmt.Sprintf("127.0.0.1:%d", 20000+slot*10+2) }
@@ -101,6 +101,14 @@ type batchResult struct {
 	via                                                           map[string]int64
 	distinct                                                      map[string]struct{}
 	samples                                                       []any
+	extra                                                         map[string]int64 // further counters (layer family), by evidence name
+}
+
+func (b *batchResult) count(name string, n int64) {
+	if b.extra == nil {
+		b.extra = map[string]int64{}
+	}
+	b.extra[name] += n
 }
 
 // inst is one booted application.
@@ -126,6 +134,8 @@ type run struct {
 	store   queue.Store
 	fwdSeen atomic.Int64
 	failed  map[string]int
+	cur     int              // the case whose ingress request is being served (the auth service records under it)
+	sub     map[int][]subreq // what the forward-auth service received, per case (layers_test.go)
 
 	// bounded-queue histories (bounded_test.go)
 	q        *qconf         // queue_limits / retention configuration (nil: defaults)
@@ -164,7 +174,14 @@ func (x *run) failW(i int, key, msg string, weak bool, with ...int) {
 }
 
 func describe(c mcase, body []byte) string {
-	return fmt.Sprintf("case: sweep=%s in=%s route=%s frame=%s headers=%q body=%d bytes %s", c.Sweep, c.In, c.Route, c.Frame, c.Hdrs, len(body), short(body))
+	d := fmt.Sprintf("case: sweep=%s in=%s route=%s frame=%s headers=%q body=%d bytes %s", c.Sweep, c.In, c.Route, c.Frame, c.Hdrs, len(body), short(body))
+	if ly := layerOf(c.Route); ly != nil {
+		d += fmt.Sprintf(" route configuration: %s", strings.Join(strings.Fields(ly.directives()), " "))
+		if c.Cred != "" {
+			d += " credentials=" + c.Cred
+		}
+	}
+	return d
 }
 
 func runBatch(slot int, backend, flow string, cases []mcase) (res *batchResult) {
@@ -258,7 +275,8 @@ func (x *run) openStore() bool {
 }
 
 func (x *run) boot() bool {
-	a, err := app.VerifBoot(app.VerifBootOptions{Dir: x.dir, ConfigText: dsl(x.slot, x.backend, x.q.dsl()), Store: x.store})
+	layerRoutes, ingressExtra := x.layerDSL()
+	a, err := app.VerifBoot(app.VerifBootOptions{Dir: x.dir, ConfigText: dsl(x.slot, x.backend, x.q.dsl()+layerRoutes, ingressExtra), Store: x.store})
 	if err != nil {
 		x.infra("boot: %v", err)
 		return false
@@ -281,18 +299,11 @@ func (x *run) boot() bool {
 		x.infra("boot: missing handler")
 		return false
 	}
-	a.VerifForwardAuthClient(&http.Client{Transport: rtFunc(func(r *http.Request) (*http.Response, error) {
-		x.fwdSeen.Add(1)
-		if r.Body != nil {
-			io.Copy(io.Discard, r.Body)
-			r.Body.Close()
-		}
-		h := http.Header{}
-		for _, a := range fwdAnswer {
-			h.Add(a.N, a.V)
-		}
-		return reply(r, 200, h), nil
-	})})
+	if !x.layersCompiled(a) {
+		return false
+	}
+	// the auth service: in memory, records what it receives, answers as the route's layer says (layers_test.go)
+	a.VerifForwardAuthClient(&http.Client{Transport: rtFunc(x.authService)})
 	if x.flow == flowPush {
 		return true
 	}
@@ -352,8 +363,12 @@ func remoteOf(i int) string { return fmt.Sprintf("198.51.100.7:%d", 10000+i) }
 func idOf(i int) string     { return fmt.Sprintf("c07-%d", i) }
 
 func rawIngress(path string, lines []hdr, frame string, body []byte) []byte {
+	return rawIngressM(http.MethodPost, path, lines, frame, body)
+}
+
+func rawIngressM(method, path string, lines []hdr, frame string, body []byte) []byte {
 	var b bytes.Buffer
-	fmt.Fprintf(&b, "POST %s HTTP/1.1\r\nHost: hooks.test\r\n", path)
+	fmt.Fprintf(&b, "%s %s HTTP/1.1\r\nHost: %s\r\n", method, path, ingressHost)
 	for _, l := range lines {
 		if l.V == "" {
 			fmt.Fprintf(&b, "%s:\r\n", l.N)
@@ -361,8 +376,12 @@ func rawIngress(path string, lines []hdr, frame string, body []byte) []byte {
 			fmt.Fprintf(&b, "%s: %s\r\n", l.N, l.V)
 		}
 	}
-	if frame == "chunked" {
-		b.WriteString("Transfer-Encoding: chunked\r\n\r\n")
+	if frame == "chunked" || frame == frameTrailer {
+		b.WriteString("Transfer-Encoding: chunked\r\n")
+		if frame == frameTrailer {
+			fmt.Fprintf(&b, "Trailer: %s\r\n", trailerField)
+		}
+		b.WriteString("\r\n")
 		rest := body
 		if len(rest) > 1 { // first chunk of one byte, then the remainder
 			fmt.Fprintf(&b, "1\r\n%s\r\n", rest[:1])
@@ -373,7 +392,11 @@ func rawIngress(path string, lines []hdr, frame string, body []byte) []byte {
 			b.Write(rest)
 			b.WriteString("\r\n")
 		}
-		b.WriteString("0\r\n\r\n")
+		b.WriteString("0\r\n")
+		if frame == frameTrailer {
+			fmt.Fprintf(&b, "%s: %s\r\n", trailerField, trailerValue)
+		}
+		b.WriteString("\r\n")
 	} else {
 		fmt.Fprintf(&b, "Content-Length: %d\r\n\r\n", len(body))
 		b.Write(body)
@@ -406,14 +429,37 @@ func (x *run) enqueueAll() bool {
 		var code int
 		switch c.In {
 		case "ingress":
-			rec, err := serve(x.in.a.Ingress, rawIngress(x.routeOf(c), x.lines[i], c.Frame, body), remoteOf(i))
+			ly := layerOf(c.Route)
+			method := http.MethodPost
+			if ly != nil {
+				// credentials the route's authentication asks for, computed now (HMAC timestamp), sent first
+				x.lines[i] = append(x.authLines(i, ly), x.lines[i]...)
+				if ly.Method != "" {
+					method = ly.Method
+				}
+			}
+			x.cur = i
+			rec, err := serve(x.in.a.Ingress, rawIngressM(method, x.routeOf(c), x.lines[i], c.Frame, body), remoteOf(i))
 			if err != nil {
 				x.infra("ingress request %d does not parse: %v", i, err)
 				return false
 			}
 			code = rec.Code
 			x.acc[i] = code == http.StatusAccepted
+			if ly != nil {
+				x.afterLayerRequest(i, ly, code)
+			}
 			switch {
+			case ly != nil && (ly.unjudged() || c.Cred != ""):
+				// whether this layer admits the request is that layer's contract (rate limit, header budget, what the
+				// auth service answered, wrong credentials), not C07's: only an oversized body must be refused here
+				if !want && x.acc[i] {
+					x.fail(i, "oversize-accepted", fmt.Sprintf("ingress answered %d for a body of %d bytes, max_body is %d", code, len(body), maxBodyOf(c.Route)))
+				}
+				if want && !x.acc[i] {
+					x.res.count("layer_refusals_not_judged", 1)
+				}
+				want = want && x.acc[i]
 			case want && !x.acc[i]:
 				x.fail(i, "within-max_body-refused", fmt.Sprintf("ingress answered %d for a body of %d bytes, max_body is %d", code, len(body), maxBodyOf(c.Route)))
 			case !want && x.acc[i]:
@@ -564,6 +610,11 @@ func (x *run) check(i int, via, phase string, payload []byte, payloadErr string,
 		x.fail(i, "payload-encoding:"+via, fmt.Sprintf("payload cannot be decoded as standard base64: %s (%s)", payloadErr, where))
 	} else if d := comparePayload(x.bodies[i], payload); d != "" {
 		x.fail(i, "payload:"+via, d+" ("+where+")")
+	}
+	if exact {
+		for _, f := range compareFraming(c, headers) {
+			x.fail(i, f.Key+":"+via, f.Msg+" ("+where+")")
+		}
 	}
 	for _, f := range compareHeaders(c, x.lines[i], headers, exact) {
 		if len(f.Foreign) == 0 {
